@@ -165,7 +165,20 @@ impl Monitor for C14 {
                             ctx.rep.sample(|| json!({"universe": universe_text(&u), "problem": problem_text(&u, &p), "solution": sol.iter().map(|&s| u.solv_label(s)).collect::<Vec<_>>()}));
                         }
                     }
-                    Outcome::Panic(_) | Outcome::Budget | Outcome::Deadlock => ctx.rep.count("not-a-verdict (see C04/C10)"),
+                    Outcome::Panic(_) | Outcome::Budget | Outcome::Deadlock => {
+                        // "never turns a solvable problem into an error": if the hard problem alone
+                        // is answered with Ok by the same kind of run, the soft list is to blame
+                        let (_s, alone) = solve_once(&u, &hard, opts);
+                        if matches!(alone, Outcome::Ok(_)) && hard_exists.is_sat() {
+                            let how = match &out {
+                                Outcome::Panic(pi) => format!("panic {}", pi.signature()),
+                                o => o.tag().to_string(),
+                            };
+                            ctx.violation("soft requirements turned a solvable problem into a crash / hang", format!("{what}: {how}"));
+                        } else {
+                            ctx.rep.count("not-a-verdict (see C04/C10)");
+                        }
+                    }
                     Outcome::Cancelled(_) => ctx.violation("Cancelled without a signal", what.clone()),
                 }
             }
